@@ -70,48 +70,56 @@ theorem C19_dispatch_kind (svc : Svc) (k h : Kind) (s : Bool)
 
 /-! ### C-STORE sub-operations received by a C-GET SCU (`_c_store_scp`) -/
 
-/-- the code violates the property on the SCU side: context 1 alone is accepted, a
-C-STORE request arrives on context 3 (never proposed), and the `KeyError` fallback
-of `_get_valid_context` hands it to the `EVT_C_STORE` handler with context 1 -/
-theorem C19_substore_neg :
+/-- **the property for sub-operations.**  With the test the code now makes first
+(`Gen.Glue.subStoreRejectsUnaccepted`), a C-STORE request on a context id that was not accepted -
+rejected, never proposed, even, 0 - reaches no handler, gets no response, and aborts the
+association, exactly as `_serve_request` treats every other request. -/
+theorem C19_substore (acc : List Cx) (reqCtx ab : Nat) (h : reqCtx ∉ ids acc) :
+    (cStoreScp true acc reqCtx ab).handler = none ∧ (cStoreScp true acc reqCtx ab).rspCtx = none ∧
+      (cStoreScp true acc reqCtx ab).refused = false ∧ (cStoreScp true acc reqCtx ab).aborted = true := by
+  simp [cStoreScp, h]
+
+/-- the source fact the theorem above rests on, regenerated from association.py on every run -/
+theorem C19_substore_code : Gen.Glue.subStoreRejectsUnaccepted = true := by decide
+
+/-- the same for the code as it is now -/
+theorem C19_substore_as_coded (acc : List Cx) (reqCtx ab : Nat) (h : reqCtx ∉ ids acc) :
+    (cStoreScp Gen.Glue.subStoreRejectsUnaccepted acc reqCtx ab).handler = none ∧
+      (cStoreScp Gen.Glue.subStoreRejectsUnaccepted acc reqCtx ab).rspCtx = none ∧
+      (cStoreScp Gen.Glue.subStoreRejectsUnaccepted acc reqCtx ab).aborted = true := by
+  rw [C19_substore_code]
+  exact ⟨(C19_substore acc reqCtx ab h).1, (C19_substore acc reqCtx ab h).2.1, (C19_substore acc reqCtx ab h).2.2.2⟩
+
+/-- the repaired defect: without that test, context 1 alone accepted, a C-STORE request on
+context 3 (never proposed) was handed to the `EVT_C_STORE` handler with context 1 by the
+`KeyError` fallback of `_get_valid_context` -/
+theorem C19_substore_unguarded_neg :
     ∃ (acc : List Cx) (reqCtx ab : Nat), reqCtx ∉ ids acc ∧
-      (cStoreScp acc reqCtx ab).handler ≠ none :=
+      (cStoreScp false acc reqCtx ab).handler ≠ none :=
   ⟨[⟨1, 10, ⟨20, true, false, true⟩, false, true⟩], 3, 10, by decide⟩
 
-/-- worse, *every* sub-operation request on an unaccepted id is answered and none
-aborts the association (either the handler's status or 0x0122 on context 1) -/
-theorem C19_substore_answered_neg (acc : List Cx) (reqCtx ab : Nat) (_h : reqCtx ∉ ids acc) :
-    (cStoreScp acc reqCtx ab).aborted = false ∧
-      ((cStoreScp acc reqCtx ab).refused = true ↔ (cStoreScp acc reqCtx ab).handler = none) := by
+/-- and *every* sub-operation request on an unaccepted id was answered, none aborted the
+association (either the handler's status or 0x0122 on context 1) -/
+theorem C19_substore_unguarded_answered_neg (acc : List Cx) (reqCtx ab : Nat) (_h : reqCtx ∉ ids acc) :
+    (cStoreScp false acc reqCtx ab).aborted = false ∧ (cStoreScp false acc reqCtx ab).rspCtx ≠ none := by
   unfold cStoreScp
   cases getValidContext acc ab none (some .scp) (some reqCtx) true <;> simp
 
-/-- what does hold: on an unaccepted id the handler is reached exactly when some
-accepted context could serve the SOP class in the SCP role (so with no such
-context the request never reaches a handler). -/
-theorem C19_substore_partial (acc : List Cx) (reqCtx ab : Nat) (_h : reqCtx ∉ ids acc)
-    (hno : ∀ c ∈ acc, ¬ (AbOk ab c ∧ c.asScp = true)) :
-    (cStoreScp acc reqCtx ab).handler = none := by
-  unfold cStoreScp
-  cases hg : getValidContext acc ab none (some .scp) (some reqCtx) true with
-  | none => rfl
-  | some c =>
-    obtain ⟨h1, h2, h3, _⟩ := C18_sound _ _ _ _ _ _ _ hg
-    exact absurd ⟨h2, h3⟩ (hno c h1)
-
-/-- and on an accepted id the handler only ever sees that very context (or, for
-UPS Push only, the substituted one) -/
-theorem C19_substore_accepted_id (acc : List Cx) (reqCtx ab : Nat) (c c' : Cx)
-    (hk : lookup acc reqCtx = some c') (h : (cStoreScp acc reqCtx ab).handler = some c)
+/-- on an accepted id the handler only ever sees that very context (or, for UPS Push only, the
+substituted one), with or without the test -/
+theorem C19_substore_accepted_id (g : Bool) (acc : List Cx) (reqCtx ab : Nat) (c c' : Cx)
+    (hk : lookup acc reqCtx = some c') (h : (cStoreScp g acc reqCtx ab).handler = some c)
     (hab : ab ≠ upsPush) : c = c' := by
   unfold cStoreScp at h
-  cases hg : getValidContext acc ab none (some .scp) (some reqCtx) true with
-  | none => rw [hg] at h; simp at h
-  | some c'' =>
-    rw [hg] at h
-    simp only [Option.some.injEq] at h
-    subst h
-    exact C18_context_id_respected _ _ _ _ _ _ _ _ hg hk (Or.inr hab)
+  split at h
+  · simp at h
+  · cases hg : getValidContext acc ab none (some .scp) (some reqCtx) true with
+    | none => rw [hg] at h; simp at h
+    | some c'' =>
+      rw [hg] at h
+      simp only [Option.some.injEq] at h
+      subst h
+      exact C18_context_id_respected _ _ _ _ _ _ _ _ hg hk (Or.inr hab)
 
 -- non-vacuity
 example :
